@@ -43,6 +43,21 @@ def ikey(x):
     return x.k
 
 
+class EqItem:
+    """items that compare equal whenever their payloads are equal, whatever their key"""
+    def __init__(self, k, p):
+        self.k, self.p = k, p
+
+    def __eq__(self, o):
+        return isinstance(o, EqItem) and self.p == o.p
+
+    def __hash__(self):
+        return hash(("EQ", self.p))
+
+    def __repr__(self):
+        return "EqItem(%r, %r)" % (self.k, self.p)
+
+
 def tkey(x):
     return x[0]
 
@@ -55,6 +70,8 @@ UNIVERSES = {
                  mk="KeyedList({items})", typed=None),
     "intkeyed": dict(items=[IntKeyed(k, p) for k in (0, 1, 2) for p in (0, 1)], key=ikey, keyf=ikey,
                      mk="KeyedList({items}, key=ikey)", typed=None),
+    "equalitems": dict(items=[EqItem(k, p) for k, p in (("a", 0), ("b", 0), ("c", 1), ("d", 1))], key=ikey, keyf=ikey,
+                       mk="KeyedList({items}, key=ikey)", typed=None),
     "typed": dict(items=["a", "b", "c", 7], key=None, keyf=lambda x: x, mk="KeyedList[str, str]({items})",
                   typed=(str, str)),
 }
